@@ -211,6 +211,15 @@ def library_input(cfg, values):
         h0 = sparse.csr_array(np.diag(d if cplxE else d.real))
     else:
         raise ValueError(rep)
+    if cfg.get("noise") and rep in ("dense", "float", "csr"):
+        # degenerate levels given with eigensolver-like noise: equal within atol, not bit-identical
+        d = np.array([complex(e[0], e[1]) for e in E]).real.astype(float)
+        seen = {}
+        for a, e in enumerate(E):
+            kth = seen.get(tuple(e), 0)
+            seen[tuple(e)] = kth + 1
+            d[a] = d[a] * (1 + kth * 2.0**-51)
+        h0 = sparse.csr_array(np.diag(d)) if rep == "csr" else np.diag(d)
     Hd = {z: h0, **{tuple(o): conv(m) for o, m in values.items()}}
     kwargs = dict(subspace_indices=list(cfg.get("indices") or block_of(cfg["sizes"])), hermitian=cfg["hermitian"])
     if cfg.get("basis") == "RL":
@@ -272,7 +281,7 @@ def block_to_np(v, shape):
     return v
 
 
-def assemble(series, sizes, n, exact=True, pos=None):
+def assemble(series, sizes, n, exact=True, pos=None, rev=False):
     """Full N x N matrix (state order) of a block series at multi-order n (M if exact else NP)."""
     if pos is None:
         off = offsets(sizes)
@@ -281,8 +290,11 @@ def assemble(series, sizes, n, exact=True, pos=None):
     nb = len(pos)
     arr = np.zeros((N, N), dtype=complex) if not exact else None
     out = M.zeros(N) if exact else None
-    for i in range(nb):
-        for j in range(nb):
+    order = [(i, j) for i in range(nb) for j in range(nb)]
+    if rev:  # lower triangle first
+        order.reverse()
+    for i, j in order:
+        if True:
             v = block_to_np(series[(i, j) + tuple(n)], (len(pos[i]), len(pos[j])))
             if v is None:
                 continue
@@ -326,7 +338,7 @@ def run_library_values(cfg, values, request_order="asc"):
     exact = cfg["repr"] == "sympy"
     for n in seq:
         for name, s in (("Ht", Ht), ("U", U), ("Uinv", Ui)):
-            out[name][n] = assemble(s, cfg["sizes"], n, exact, positions(cfg))
+            out[name][n] = assemble(s, cfg["sizes"], n, exact, positions(cfg), rev=request_order != "asc")
     return values, out, (Ht, U, Ui)
 
 
